@@ -16,6 +16,18 @@ from linear_operator.utils.getitem import _compute_getitem_size
 from linear_operator.utils.memoize import cached
 
 
+class _ZeroLinearOperatorRepresentationTree(object):
+    """Rebuilds a ZeroLinearOperator (which has no tensor arguments) inside the representation tree of a parent."""
+
+    def __init__(self, linear_op):
+        self.sizes = tuple(linear_op.sizes)
+        self.dtype = linear_op.dtype
+        self.device = linear_op.device
+
+    def __call__(self, *flattened_representation):
+        return ZeroLinearOperator(*self.sizes, dtype=self.dtype, device=self.device)
+
+
 class ZeroLinearOperator(LinearOperator):
     """
     Special LinearOperator representing zero.
@@ -34,6 +46,13 @@ class ZeroLinearOperator(LinearOperator):
         self._dtype = dtype or torch.get_default_dtype()
         self._device = device or torch.device("cpu")
 
+    def representation(self) -> Tuple[torch.Tensor, ...]:
+        # A ZeroLinearOperator is defined by sizes only: it contributes no tensors to a parent's representation
+        return tuple()
+
+    def representation_tree(self):
+        return _ZeroLinearOperatorRepresentationTree(self)
+
     @property
     def dtype(self) -> Optional[torch.dtype]:
         return self._dtype
@@ -43,7 +62,8 @@ class ZeroLinearOperator(LinearOperator):
         return self._device
 
     def _bilinear_derivative(self, left_vecs: Tensor, right_vecs: Tensor) -> Tuple[Optional[Tensor], ...]:
-        raise RuntimeError("Backwards through a ZeroLinearOperator is not possible")
+        # no tensors define a ZeroLinearOperator (see representation()): there is nothing to differentiate
+        return tuple()
 
     def _diagonal(self: Float[LinearOperator, "... M N"]) -> Float[torch.Tensor, "... N"]:
         shape = self.shape
